@@ -7,7 +7,7 @@
 //	             pipes), parent-exits-first:detached, setsid-escapee
 //	start        Execute | Start | supervisor (supervisor.Run -> Execute)
 //	stop         ctx-cancel | deadline | Cancel | Stop | Restart      (supervisor: ctx-cancel | deadline | Cancel)
-//	instant      at-start (Start returned / IsOn() became true / post-start hook ran), root (the direct child exists,
+//	instant      at-start (Start returned / Execute under way / post-start hook ran, and IsOn() seen true), root (the direct child exists,
 //	             no descendant yet), desc-k for every k (descendants 1..k exist, k+1.. do not), parent-exited
 //
 // The tree is built by the helper `procgrid` (checks/c05/procgrid), which the Subprocess object runs as its command.
@@ -595,9 +595,12 @@ func runCell(c Cell) (res Result) {
 		}
 		return cond()
 	}
+	// at-start = the start call returned (Start) / is under way (Execute) / the post-start hook ran (supervisor) AND
+	// IsOn() has been seen true: the monitoring flag IsOn() depends on is raised by a goroutine, so IsOn() may still
+	// be false right after Start() returned, and the statement is about a RUNNING subprocess.
 	ok := true
 	switch c.Start {
-	case "Execute":
+	case "Execute", "Start":
 		ok = reach("IsOn() true", func() bool { return subs[0].IsOn() })
 	case "supervisor":
 		ok = reach("post-start hook", func() bool {
@@ -608,6 +611,9 @@ func runCell(c Cell) (res Result) {
 				return false
 			}
 		})
+		if ok {
+			ok = reach("IsOn() true", func() bool { p := current(0); return p != nil && p.IsOn() })
+		}
 	}
 	if ok && c.Instant != "at-start" {
 		ok = reach("root announced", func() bool { return announced("root") })
@@ -651,7 +657,17 @@ func runCell(c Cell) (res Result) {
 	}
 
 	// ---- what exists at the stop instant (gated: nothing else is being forked)
-	alive := survivorsOf(dir, 1)
+	// Restart and the supervisor's restart after Cancel legitimately start the command again. The helper numbers its
+	// generations itself, and a root killed before it took its number leaves that number to its successor: in those
+	// cells only a generation whose root HAD announced itself when the stop was requested is the stopped one.
+	restarts := c.Stop == "Restart" || (c.Start == "supervisor" && c.Stop == "Cancel")
+	judged := 1
+	if restarts {
+		if _, found := readLedger(dir).find("root", 1); !found {
+			judged = 0 // no generation is known to be the old one; nothing to judge (at-start only)
+		}
+	}
+	alive := survivorsOf(dir, judged)
 	res.AliveAtStop = names(alive)
 	res.nontrivial = c.Instant != "at-start" && len(alive) > 0
 	{
@@ -708,7 +724,7 @@ func runCell(c Cell) (res Result) {
 	// clause "survivor": poll /proc every 50 ms up to the bound
 	var surv []proc
 	for {
-		surv = survivorsOf(dir, 1)
+		surv = survivorsOf(dir, judged)
 		if len(surv) == 0 {
 			res.AllGoneAfter = ms(time.Now())
 			break
@@ -802,7 +818,14 @@ func TestC05(t *testing.T) {
 			rep.EngineError("replay: unknown shape %q", obj.Replay.Cell.Shape)
 			return
 		}
-		cells = []Cell{obj.Replay.Cell}
+		// a stored case is re-run 5 times (DESIGN.md §3: a violation is believed after 5 identical replays)
+		times := 5
+		if n, _ := strconv.Atoi(os.Getenv("VERIF_C05_REPEAT")); n > 0 {
+			times = n
+		}
+		for i := 0; i < times; i++ {
+			cells = append(cells, obj.Replay.Cell)
+		}
 	} else {
 		cells = grid(ev.Thorough())
 	}
